@@ -1,6 +1,6 @@
 """C05 configuration for ./check (see checks/propcfg.py for the keys)."""
 CFG = {
-    "modules": ["VaxisModel.Props.C05", "VaxisModel.Props.C05Bodies", "VaxisModel.Props.C05Payload", "VaxisModel.Props.C05Overflow", "VaxisModel.Witness.F105i", "VaxisModel.Props.C05Events", "VaxisModel.Props.C05Draw", "VaxisModel.Witness.F105g", "VaxisModel.Witness.F105h",
+    "modules": ["VaxisModel.Props.C05", "VaxisModel.Props.C05Bodies", "VaxisModel.Props.C05Dispatch", "VaxisModel.Props.C05Payload", "VaxisModel.Props.C05Overflow", "VaxisModel.Witness.F105i", "VaxisModel.Props.C05Events", "VaxisModel.Props.C05Draw", "VaxisModel.Witness.F105g", "VaxisModel.Witness.F105h",
                 "VaxisModel.Witness.F15", "VaxisModel.Witness.F16", "VaxisModel.Witness.F17", "VaxisModel.Witness.F18",
                 "VaxisModel.Witness.F19", "VaxisModel.Witness.F20", "VaxisModel.Witness.F105a", "VaxisModel.Witness.F105b",
                 "VaxisModel.Witness.F105c", "VaxisModel.Witness.F105d", "VaxisModel.Witness.F105e", "VaxisModel.Witness.F105f"],
@@ -33,8 +33,9 @@ CFG = {
                      "primitives of the statement language whose Go source is pinned by text in the translator: cutString (Stmt.cut = cutSemi; its source is "
                      "the generated fact cutStringSrc, theorem cutString_pinned), the composite literals of decsc/decrc/ris (saved-cursor record, charsets, "
                      "mode reset), the DEC-special translation and single shift of print, screen allocation and saved-cursor clamp of resize",
-                     "dispatchers csi()/esc()/c0()/update(): tied through the regenerated tables of Gen/TermModes.lean (the model matches on the generated "
-                     "arm enums), not through evalBody",
+                     "dispatchers: csi()/esc()/c0() = regenerated table (label, callee, how the parameters are passed) composed with the regenerated "
+                     "body of the callee (csi_is_generated, esc_is_generated, c0_is_generated); the parameter clamp of csi() itself, the inline arms "
+                     "without a callee (replies, charset designations, keypad modes, DECSCUSR, BEL, SO/SI) and update() are hand-transcribed + correspondence",
                      "C05Events: the LTS of the PTY goroutine is tied to the source by the extracted facts eventCap, postEventIsPlainSend, "
                      "loopArms, loopDrainsFirst and validated against the real loop by the C05Events stream"],
     "assumptions": ["terminal sizes between 1x1 and 65535x65535 (winsize fields are uint16; the property starts at 1x1)",
